@@ -45,7 +45,7 @@ if __name__ == '__main__':
     fails = collections.Counter()
     for out, fl in res:
         for key, which, w, rho in out:
-            worst[(key, 'gyr' if 'gyr' in which else 'nogyr')].append(w/rho)
+            worst[(key, which if key.startswith('Mahony') else which.split('|')[0])].append(w/rho)
         fails.update(fl)
     for k in sorted(worst):
         v = sorted(worst[k])
